@@ -17,6 +17,8 @@ def run(ctx, rep):
     numeric.r08q(ctx, rep)
     numeric.r08r(ctx, rep)
     numeric.r08s(ctx, rep)
+    numeric.r08t(ctx, rep)
+    numeric.r08u(ctx, rep)
     # R08f: the zero test the division procedures guard with
     sub = type(rep)(rep.prop)
     numeric.r09c(ctx, sub)
